@@ -301,6 +301,111 @@ static void check_dataset(const std::string & root, const std::string & ds)
   if (g_samples.size() < 3) g_samples.push_back(fmt("%s: n=%d e=[%g,%g] qbb=%g E1cdf[0]=%.9g", ds.c_str(), x.n, x.emin, x.emax, x.qbb, x.e1[0]));
 }
 
+// ---- one generator object taken through initialise(A) -> reset -> initialise(B) must sample exactly like a fresh object
+// initialised on B (decoded tables of a previous dataset must not survive reset), for both sampling methods on both sides
+static void check_reuse(const std::string & root, const std::string & dsA, const std::string & dsB)
+{
+  using G = bxdecay0::dbd_gA;
+  const G::shooting_type METH[2] = {G::SHOOTING_INVERSE_TRANSFORM_METHOD, G::SHOOTING_REJECTION};
+  const double us[] = {1e-12, 0.1, 0.3, 0.5, 0.7, 0.9, 1 - 1e-12};
+  for (int ma = 0; ma < 2; ma++)
+    for (int mb = 0; mb < 2; mb++) {
+      auto conf = [&](G & g, const std::string & ds, int m) {
+        setenv("BXDECAY0_DBD_GA_DATA_DIR", (root + "/" + ds).c_str(), 1);
+        g.set_nuclide("Test");
+        g.set_process(G::PROCESS_G0);
+        g.set_shooting(METH[m]);
+        g.initialize();
+      };
+      G reused, fresh;
+      try {
+        conf(reused, dsA, ma);
+        Seq r;
+        double e1, e2;
+        r.horizon = 300000;
+        reused.shoot_e1_e2(r, e1, e2);
+        reused.reset();
+      } catch (std::exception &) {
+        continue; // A not usable with this method (pdf-only dataset): nothing to carry over
+      }
+      bool ok1 = true, ok2 = true;
+      try { conf(reused, dsB, mb); } catch (std::exception &) { ok1 = false; }
+      try { conf(fresh, dsB, mb); } catch (std::exception &) { ok2 = false; }
+      std::string key = dsB + ":after:" + dsA + fmt(":m%d%d", ma, mb);
+      if (ok1 != ok2) {
+        V("reuse:" + key + ":init", fmt("initialise(%s) after initialise(%s)+reset %s, on a new object it %s", dsB.c_str(), dsA.c_str(), ok1 ? "succeeds" : "throws", ok2 ? "succeeds" : "throws"));
+        continue;
+      }
+      if (!ok1) continue;
+      for (double a : us)
+        for (double b : us) {
+          Seq r1, r2;
+          r1.v = {a, b, 0.5};
+          r2.v = r1.v;
+          r1.horizon = r2.horizon = 300000;
+          double x1 = -1, y1 = -1, x2 = -2, y2 = -2;
+          bool t1 = false, t2 = false;
+          try { reused.shoot_e1_e2(r1, x1, y1); } catch (std::exception &) { t1 = true; }
+          try { fresh.shoot_e1_e2(r2, x2, y2); } catch (std::exception &) { t2 = true; }
+          g_eval++;
+          g_nontrivial++;
+          if (t1 != t2 || (!t1 && (x1 != x2 || y1 != y2 || r1.i != r2.i)))
+            V("reuse:" + key, fmt("deviates (%.17g, %.17g): object re-initialised on %s after %s gives e1=%.17g e2=%.17g (%zu deviates), a new object e1=%.17g e2=%.17g (%zu)", a, b,
+                                  dsB.c_str(), dsA.c_str(), x1, y1, r1.i, x2, y2, r2.i));
+        }
+    }
+}
+
+// run fn in a forked child (an abort or crash inside the library is an outcome, not the end of the check) and merge its findings
+#include <sys/wait.h>
+#include <unistd.h>
+#include <functional>
+static void contained(const std::string & label, const std::function<void()> & fn)
+{
+  int pfd[2];
+  if (pipe(pfd)) { fn(); return; }
+  pid_t p = fork();
+  if (p == 0) {
+    close(pfd[0]);
+    alarm(600);
+    g_viol.clear();
+    long e0 = g_eval, n0 = g_nontrivial;
+    fn();
+    std::string buf = std::to_string(g_eval - e0) + " " + std::to_string(g_nontrivial - n0) + "\n";
+    for (auto & kv : g_viol) buf += kv.first + "\t" + kv.second + "\n";
+    size_t off = 0;
+    while (off < buf.size()) {
+      ssize_t w = write(pfd[1], buf.data() + off, buf.size() - off);
+      if (w <= 0) break;
+      off += w;
+    }
+    _exit(0);
+  }
+  close(pfd[1]);
+  std::string buf;
+  char b[65536];
+  ssize_t r;
+  while ((r = read(pfd[0], b, sizeof b)) > 0) buf.append(b, r);
+  close(pfd[0]);
+  int st = 0;
+  waitpid(p, &st, 0);
+  if (!WIFEXITED(st) || WEXITSTATUS(st) != 0) {
+    V("crash:" + label, label + ": the process died (" + (WIFSIGNALED(st) ? "signal " + std::to_string(WTERMSIG(st)) : "exit " + std::to_string(WEXITSTATUS(st))) + ")");
+    return;
+  }
+  std::istringstream is(buf);
+  std::string line;
+  std::getline(is, line);
+  long de = 0, dn = 0;
+  sscanf(line.c_str(), "%ld %ld", &de, &dn);
+  g_eval += de;
+  g_nontrivial += dn;
+  while (std::getline(is, line)) {
+    size_t t = line.find('\t');
+    if (t != std::string::npos) V(line.substr(0, t), line.substr(t + 1));
+  }
+}
+
 int main(int argc, char ** argv)
 {
   std::string list, out = "/dev/stdout", root;
@@ -315,8 +420,17 @@ int main(int argc, char ** argv)
   std::clog.rdbuf(nullptr);
   std::ifstream in(list);
   std::string ds;
+  std::vector<std::string> all;
   while (std::getline(in, ds))
-    if (!ds.empty()) check_dataset(root, ds);
+    if (!ds.empty()) {
+      check_dataset(root, ds);
+      all.push_back(ds);
+    }
+  // consecutive datasets of the list differ in size, range or shape: both orders
+  for (size_t k = 0; k + 1 < all.size(); k++) {
+    contained("reuse " + all[k + 1] + " after " + all[k], [&]() { check_reuse(root, all[k], all[k + 1]); });
+    contained("reuse " + all[k] + " after " + all[k + 1], [&]() { check_reuse(root, all[k + 1], all[k]); });
+  }
   FILE * fo = fopen(out.c_str(), "w");
   fprintf(fo, "{\"evaluations\":%ld,\"nontrivial\":%ld,\"datasets\":%ld,\"cdf_lines\":%ld,\"samples\":[", g_eval, g_nontrivial, g_datasets, g_lines);
   for (size_t k = 0; k < g_samples.size(); k++) fprintf(fo, "%s%s", k ? "," : "", vx::jstr(g_samples[k]).c_str());
